@@ -205,6 +205,8 @@ impl Db {
             // takes for its own.
             if !in_memory && config.meta_path.is_file() {
                 std::fs::remove_file(&config.meta_path)?;
+                #[cfg(anything_verif)]
+                crate::verif::crash_point(5);
             }
 
             // NB: a single indexing thread keeps the documents in the order of
